@@ -642,84 +642,84 @@ pub fn bv_wide_exact<S: Src>(s: &mut S) {
 }
 
 crate::harnesses! {
-    @quick c01_arith_8 => bv_arith(8, 8);
-    c01_arith_16 => bv_arith(16, 16);
-    c01_arith_32 => bv_arith(32, 32);
-    @quick c01_arith_64 => bv_arith(64, 64);
-    @quick c01_mul_8 => bv_mul(8, 8);
-    c01_mul_16 => bv_mul(16, 16);
-    c01_mul_32 => bv_mul(32, 32);
-    @quick c01_mul_64 => bv_mul(64, 64);
-    @quick c01_shift_8 => bv_shift(8, 8);
-    c01_shift_16 => bv_shift(16, 16);
-    c01_shift_32 => bv_shift(32, 32);
-    @quick c01_shift_64 => bv_shift(64, 64);
-    @quick c01_cmp_8 => bv_cmp(8, 8);
-    c01_cmp_16 => bv_cmp(16, 16);
-    c01_cmp_32 => bv_cmp(32, 32);
-    @quick c01_cmp_64 => bv_cmp(64, 64);
-    @quick c01_flags_8 => bv_flags(8, 8);
-    c01_flags_16 => bv_flags(16, 16);
-    c01_flags_32 => bv_flags(32, 32);
-    @quick c01_flags_64 => bv_flags(64, 64);
-    c01_float_8 => bv_float(8, 8);
-    @quick c01_float_32 => bv_float(32, 32);
-    c01_float_64 => bv_float(64, 64);
-    c01_divzero_8 => bv_div_by_zero(8);
-    c01_divzero_32 => bv_div_by_zero(32);
-    @quick c01_divzero_64 => bv_div_by_zero(64);
-    @quick c01_shift_64_by8 => bv_shift(64, 8);
-    c01_shift_32_by8 => bv_shift(32, 8);
-    @quick c01_shift_8_by64 => bv_shift(8, 64);
-    @quick c01_udiv_8 => bv_udiv(8, 8);
-    c01_udiv_16 => bv_udiv(16, 16);
-    @quick c01_sdiv_8 => bv_sdiv(8, 8);
-    c01_sdiv_16 => bv_sdiv(16, 16);
-    @quick c01_bool => bv_bool();
-    c01_piece_8_8 => bv_piece(8, 8);
-    c01_piece_16_16 => bv_piece(16, 16);
-    @quick c01_piece_32_32 => bv_piece(32, 32);
-    @quick c01_piece_8_32 => bv_piece(8, 32);
-    c01_piece_32_16 => bv_piece(32, 16);
-    @quick c01_unop_8 => bv_unop(8);
-    c01_unop_16 => bv_unop(16);
-    c01_unop_32 => bv_unop(32);
-    @quick c01_unop_64 => bv_unop(64);
-    @quick c01_boolnegate => bv_boolnegate();
-    c01_cast_8_16 => bv_cast(8, 16);
-    @quick c01_cast_8_64 => bv_cast(8, 64);
-    c01_cast_16_32 => bv_cast(16, 32);
-    @quick c01_cast_32_64 => bv_cast(32, 64);
-    c01_cast_64_64 => bv_cast(64, 64);
-    @quick c01_cast_8_8 => bv_cast(8, 8);
-    c01_cast_32_32 => bv_cast(32, 32);
-    @quick c01_count_64_8 => bv_count_narrow(64, 8);
-    c01_count_32_8 => bv_count_narrow(32, 8);
-    c01_count_16_8 => bv_count_narrow(16, 8);
-    c01_subpiece_16 => bv_subpiece(16);
-    c01_subpiece_32 => bv_subpiece(32);
-    @quick c01_subpiece_64 => bv_subpiece(64);
-    c01_resize_8_32 => bv_resize(8, 32);
-    @quick c01_resize_64_16 => bv_resize(64, 16);
-    c01_resize_32_32 => bv_resize(32, 32);
-    @quick c01_dom_add_8 => dom_add(8, 8);
-    c01_dom_add_64 => dom_add(64, 64);
-    c01_dom_xor_32 => dom_xor(32, 32);
-    c01_dom_mult_16 => dom_mult(16, 16);
-    @quick c01_dom_less_16 => dom_less(16, 16);
-    c01_dom_sless_64 => dom_sless(64, 64);
-    c01_dom_equal_32 => dom_equal(32, 32);
-    c01_dom_srem_8 => dom_srem(8, 8);
-    @quick c01_dom_fadd_32 => dom_fadd(32, 32);
-    c01_dom_fless_64 => dom_fless(64, 64);
-    c01_dom_boolor => dom_boolor(8, 8);
-    c01_dom_negate_8 => dom_unop_negate(8);
-    c01_dom_unop_float_64 => dom_unop_float(64);
-    @quick c01_dom_boolnegate => dom_boolnegate();
-    c01_dom_popcount_64_8 => dom_cast_popcount(64, 8);
-    @quick c01_dom_popcount_8_8 => dom_cast_popcount(8, 8);
-    @quick c01_dom_lzcount_32_32 => dom_cast_lzcount(32, 32);
-    c01_dom_lzcount_16_8 => dom_cast_lzcount(16, 8);
-    @quick c01_dom_cast_float_32_32 => dom_cast_float(32, 32);
-    c01_dom_cast_float_32_64 => dom_cast_float(32, 64);
+    @quick c01_arith_8[4] => bv_arith(8, 8);
+    c01_arith_16[4] => bv_arith(16, 16);
+    c01_arith_32[4] => bv_arith(32, 32);
+    @quick c01_arith_64[4] => bv_arith(64, 64);
+    @quick c01_mul_8[4] => bv_mul(8, 8);
+    c01_mul_16[4] => bv_mul(16, 16);
+    c01_mul_32[4] => bv_mul(32, 32);
+    @quick c01_mul_64[4] => bv_mul(64, 64);
+    @quick c01_shift_8[4] => bv_shift(8, 8);
+    c01_shift_16[4] => bv_shift(16, 16);
+    c01_shift_32[4] => bv_shift(32, 32);
+    @quick c01_shift_64[4] => bv_shift(64, 64);
+    @quick c01_cmp_8[4] => bv_cmp(8, 8);
+    c01_cmp_16[4] => bv_cmp(16, 16);
+    c01_cmp_32[4] => bv_cmp(32, 32);
+    @quick c01_cmp_64[4] => bv_cmp(64, 64);
+    @quick c01_flags_8[4] => bv_flags(8, 8);
+    c01_flags_16[4] => bv_flags(16, 16);
+    c01_flags_32[4] => bv_flags(32, 32);
+    @quick c01_flags_64[4] => bv_flags(64, 64);
+    c01_float_8[4] => bv_float(8, 8);
+    @quick c01_float_32[4] => bv_float(32, 32);
+    c01_float_64[4] => bv_float(64, 64);
+    c01_divzero_8[4] => bv_div_by_zero(8);
+    c01_divzero_32[4] => bv_div_by_zero(32);
+    @quick c01_divzero_64[4] => bv_div_by_zero(64);
+    @quick c01_shift_64_by8[4] => bv_shift(64, 8);
+    c01_shift_32_by8[4] => bv_shift(32, 8);
+    @quick c01_shift_8_by64[4] => bv_shift(8, 64);
+    @quick c01_udiv_8[4] => bv_udiv(8, 8);
+    c01_udiv_16[4] => bv_udiv(16, 16);
+    @quick c01_sdiv_8[4] => bv_sdiv(8, 8);
+    c01_sdiv_16[4] => bv_sdiv(16, 16);
+    @quick c01_bool[4] => bv_bool();
+    c01_piece_8_8[4] => bv_piece(8, 8);
+    c01_piece_16_16[4] => bv_piece(16, 16);
+    @quick c01_piece_32_32[4] => bv_piece(32, 32);
+    @quick c01_piece_8_32[4] => bv_piece(8, 32);
+    c01_piece_32_16[4] => bv_piece(32, 16);
+    @quick c01_unop_8[4] => bv_unop(8);
+    c01_unop_16[4] => bv_unop(16);
+    c01_unop_32[4] => bv_unop(32);
+    @quick c01_unop_64[4] => bv_unop(64);
+    @quick c01_boolnegate[4] => bv_boolnegate();
+    c01_cast_8_16[4] => bv_cast(8, 16);
+    @quick c01_cast_8_64[4] => bv_cast(8, 64);
+    c01_cast_16_32[4] => bv_cast(16, 32);
+    @quick c01_cast_32_64[4] => bv_cast(32, 64);
+    c01_cast_64_64[4] => bv_cast(64, 64);
+    @quick c01_cast_8_8[4] => bv_cast(8, 8);
+    c01_cast_32_32[4] => bv_cast(32, 32);
+    @quick c01_count_64_8[4] => bv_count_narrow(64, 8);
+    c01_count_32_8[4] => bv_count_narrow(32, 8);
+    c01_count_16_8[4] => bv_count_narrow(16, 8);
+    c01_subpiece_16[4] => bv_subpiece(16);
+    c01_subpiece_32[4] => bv_subpiece(32);
+    @quick c01_subpiece_64[4] => bv_subpiece(64);
+    c01_resize_8_32[4] => bv_resize(8, 32);
+    @quick c01_resize_64_16[4] => bv_resize(64, 16);
+    c01_resize_32_32[4] => bv_resize(32, 32);
+    @quick c01_dom_add_8[4] => dom_add(8, 8);
+    c01_dom_add_64[4] => dom_add(64, 64);
+    c01_dom_xor_32[4] => dom_xor(32, 32);
+    c01_dom_mult_16[4] => dom_mult(16, 16);
+    @quick c01_dom_less_16[4] => dom_less(16, 16);
+    c01_dom_sless_64[4] => dom_sless(64, 64);
+    c01_dom_equal_32[4] => dom_equal(32, 32);
+    c01_dom_srem_8[4] => dom_srem(8, 8);
+    @quick c01_dom_fadd_32[4] => dom_fadd(32, 32);
+    c01_dom_fless_64[4] => dom_fless(64, 64);
+    c01_dom_boolor[4] => dom_boolor(8, 8);
+    c01_dom_negate_8[4] => dom_unop_negate(8);
+    c01_dom_unop_float_64[4] => dom_unop_float(64);
+    @quick c01_dom_boolnegate[4] => dom_boolnegate();
+    c01_dom_popcount_64_8[4] => dom_cast_popcount(64, 8);
+    @quick c01_dom_popcount_8_8[4] => dom_cast_popcount(8, 8);
+    @quick c01_dom_lzcount_32_32[4] => dom_cast_lzcount(32, 32);
+    c01_dom_lzcount_16_8[4] => dom_cast_lzcount(16, 8);
+    @quick c01_dom_cast_float_32_32[4] => dom_cast_float(32, 32);
+    c01_dom_cast_float_32_64[4] => dom_cast_float(32, 64);
 }
